@@ -20,6 +20,9 @@ func init() {
 		rule: "value zoo (nil, numbers, escaped strings, nested data, Ref, SoftRef, DataValue, DeleteAction, chan, NaN, failing and invalid Marshalers) x every reply/event method of every request type x meta {none,status,header,both} x isHttp x resource names of 1-3 tokens x connection ids; every publish is parsed by an independent validator; distinct = distinct (method, value, meta, http, published messages)"}
 }
 
+// c07Ctl: characters whose Go string escapes are not JSON escapes, a non-printable rune and invalid UTF-8.
+const c07Ctl = "a\x1b\x00\a\v\x7f\U000e0001\xffz \"q\""
+
 type badMarshaler struct{}
 
 func (badMarshaler) MarshalJSON() ([]byte, error) { return nil, errors.New("cannot marshal") }
@@ -48,12 +51,12 @@ var c07Values = []struct {
 }
 
 var c07Methods = map[string][]string{
-	"access": {"Access", "AccessTrueEmpty", "AccessDenied", "AccessGranted", "NotFound", "InvalidQuery", "InvalidQueryMsg", "Error", "ErrorData"},
-	"get":    {"Model", "QueryModel", "Collection", "QueryCollection", "NotFound", "InvalidQuery", "Error", "ErrorData"},
-	"call": {"OK", "Resource", "NotFound", "MethodNotFound", "InvalidParams", "InvalidParamsMsg", "InvalidQuery", "Error", "ErrorData",
+	"access": {"Access", "AccessTrueEmpty", "AccessDenied", "AccessGranted", "NotFound", "InvalidQuery", "InvalidQueryMsg", "Error", "ErrorData", "ErrorCtl", "InvalidQueryCtl"},
+	"get":    {"Model", "QueryModel", "Collection", "QueryCollection", "NotFound", "InvalidQuery", "Error", "ErrorData", "ErrorCtl", "InvalidQueryCtl"},
+	"call": {"OK", "Resource", "NotFound", "MethodNotFound", "InvalidParams", "InvalidParamsMsg", "InvalidQuery", "Error", "ErrorData", "ErrorCtl", "InvalidParamsCtl", "InvalidQueryCtl", "PanicCtl",
 		"Event", "ChangeEvent", "AddEvent", "RemoveEvent", "CreateEvent", "DeleteEvent", "ReaccessEvent", "ResetEvent", "Timeout",
 		"SvcTokenEvent", "SvcTokenEventWithID", "SvcTokenReset", "SvcReset", "SvcResetAll"},
-	"auth": {"OK", "Resource", "TokenEvent", "Error", "ErrorData", "MethodNotFound"},
+	"auth": {"OK", "Resource", "TokenEvent", "Error", "ErrorData", "MethodNotFound", "ErrorCtl", "InvalidParamsCtl"},
 	"new":  {"New", "Error"},
 }
 
@@ -115,6 +118,14 @@ func c07Run(c c07Case) (pubs []envnats.Msg, problems []string) {
 			r.Error(errors.New("plain \"err\""))
 		case "ErrorData":
 			r.Error(&res.Error{Code: "custom.code", Message: "m", Data: val})
+		case "ErrorCtl":
+			r.Error(&res.Error{Code: "custom." + c07Ctl, Message: c07Ctl})
+		case "InvalidParamsCtl":
+			r.InvalidParams(c07Ctl)
+		case "InvalidQueryCtl":
+			r.InvalidQuery(c07Ctl)
+		case "PanicCtl":
+			panic(c07Ctl)
 		case "Model":
 			r.Model(val)
 		case "QueryModel":
